@@ -85,6 +85,7 @@ def run(ctx):
     for (m, rows, fname), o in zip(alone_jobs, ares):
         alone[fname] = o
     fails, norun_fails, lits, lit_src = [], [], [], []
+    rvalid = {}
     compared = 0
     for gi, (j, r) in enumerate(zip(gjobs, gres)):
         members, rows, order2 = meta[gi]
@@ -102,6 +103,12 @@ def run(ctx):
                 continue
             with_lines = run_["method"].startswith("collect")
             for m in o["members"]:
+                # the validity the run's results report (Result.is_valid, what ResultsManager.is_valid aggregates): the same in every schedule
+                first = rvalid.setdefault((gi, m["identity"]), (label, m["result_is_valid"]))
+                if first[1] != m["result_is_valid"]:
+                    fails.append({"kind": f"the validity a member's Result reports differs between {first[0]} ({first[1]}) and {label} ({m['result_is_valid']})",
+                                  "member": next(x["comment"] + "$FILE" + x["body"] for x in members if x["id"] == m["identity"]), "group": j["groups"][run_["pathsname"]], "rows": rows,
+                                  "csvpath_is_valid": m["is_valid"], "run_started": m["started"]})
                 compared += 1
                 b = base[m["identity"]]
                 cm = canon_member(m, with_lines)
